@@ -1,6 +1,351 @@
 import SigModel.Spec.ShapesClient
 
+/-! Helper lemmas for C10: what the regenerated validation table guarantees. -/
 namespace SigModel.ShapesClient
-open SigModel.Generated.ShapesClient
+
+/-- The facts of the current working tree. -/
+abbrev Fc : Facts := Facts.current
+
+@[simp] theorem andThen_eq_ok (a b : V) : a.andThen b = .ok ↔ a = .ok ∧ b = .ok := by
+  cases a <;> simp [V.andThen]
+
+theorem andThen_crash {a b : V} {site : String} (h : a.andThen b = .crash site) :
+    a = .crash site ∨ b = .crash site := by
+  cases a <;> simp_all [V.andThen]
+
+theorem andThen_err {a b : V} {c : String} (h : a.andThen b = .err c) :
+    a = .err c ∨ (a = .ok ∧ b = .err c) := by
+  cases a <;> simp_all [V.andThen]
+
+/-! ### the table -/
+
+/-- In the current table every pointer member that is validated is first compared with nil. -/
+theorem sub_nil_all : Fc.validation.all (fun r =>
+    !(r.2.2.2 == "sub" && (r.1 == "ClientMessage" || r.1 == "InternalClientMessage" || r.1 == "DialoutInternalClientMessage")) ||
+      Fc.validation.contains (r.1, r.2.1, r.2.2.1, "nil")) = true := by decide
+
+theorem sub_nil (recv tag field : String)
+    (hr : recv = "ClientMessage" ∨ recv = "InternalClientMessage" ∨ recv = "DialoutInternalClientMessage")
+    (h : tbl Fc recv tag field "sub" = true) : tbl Fc recv tag field "nil" = true := by
+  unfold tbl at *
+  have hall := sub_nil_all
+  rw [List.all_eq_true] at hall
+  have hm : (recv, tag, field, "sub") ∈ Fc.validation := by
+    simpa [List.contains_iff_mem] using h
+  have := hall _ hm
+  rcases hr with rfl | rfl | rfl <;> simpa using this
+
+/-! ### checkField -/
+
+theorem checkField_no_crash {α : Type} (recv tag field : String) (x : Option α) (sub : α → V) (site : String)
+    (hr : recv = "ClientMessage" ∨ recv = "InternalClientMessage" ∨ recv = "DialoutInternalClientMessage")
+    (hsub : ∀ a site, sub a ≠ .crash site) : checkField Fc recv tag field x sub ≠ .crash site := by
+  unfold checkField
+  cases x with
+  | none =>
+    simp only []
+    split
+    · simp [invalid]
+    · split
+      · rename_i h1 h2
+        exact absurd (sub_nil recv tag field hr h2) h1
+      · simp
+  | some a =>
+    simp only []
+    split
+    · exact hsub a site
+    · simp
+
+theorem checkField_ok_some {α : Type} {recv tag field : String} {x : Option α} {sub : α → V}
+    (hg : tbl Fc recv tag field "nil" = true) (h : checkField Fc recv tag field x sub = .ok) : x.isSome = true := by
+  cases x with
+  | some a => rfl
+  | none => simp [checkField, hg, invalid] at h
+
+theorem checkField_ok_sub {α : Type} {recv tag field : String} {a : α} {sub : α → V}
+    (hs : tbl Fc recv tag field "sub" = true) (h : checkField Fc recv tag field (some a) sub = .ok) : sub a = .ok := by
+  simpa [checkField, hs] using h
+
+/-- A failing `checkField` fails with a proper error code, never empty. -/
+theorem checkField_err {α : Type} {recv tag field : String} {x : Option α} {sub : α → V} {c : String}
+    (h : checkField Fc recv tag field x sub = .err c) :
+    c = "invalid_format" ∨ ∃ a, x = some a ∧ sub a = .err c := by
+  unfold checkField at h
+  cases x with
+  | none =>
+    simp only [] at h
+    split at h
+    · left; simp [invalid] at h; exact h.symm
+    · split at h <;> simp at h
+  | some a =>
+    simp only [] at h
+    split at h
+    · right; exact ⟨a, rfl, h⟩
+    · simp at h
+
+/-! ### sub-validators never crash (current table) -/
+
+theorem checkHello_no_crash (h : Hello) (site : String) : checkHello Fc h ≠ .crash site := by
+  unfold checkHello
+  have hg : tbl Fc "HelloClientMessage" "ResumeId=" "Auth" "nil" = true := by decide
+  split
+  · simp
+  · split
+    · simp
+    · split
+      · simp [hg, invalid]
+      · rename_i a _
+        split
+        · simp [invalid]
+        · split
+          · split <;> (try simp [invalid])
+            split <;> simp [invalid]
+          · split
+            · split
+              · simp [invalid]
+              · split <;> simp [invalid]
+            · simp [invalid]
+
+theorem checkFederation_no_crash (f : Federation) (site : String) : checkFederation f ≠ .crash site := by
+  unfold checkFederation; repeat (first | split | simp [invalid])
+
+theorem checkRoom_no_crash (r : RoomMsg) (site : String) : checkRoom Fc r ≠ .crash site := by
+  unfold checkRoom
+  split
+  · simp
+  · split
+    · exact checkFederation_no_crash _ _
+    · simp
+
+theorem checkMessageMsg_no_crash (m : MessageMsg) (site : String) : checkMessageMsg m ≠ .crash site := by
+  unfold checkMessageMsg; repeat (first | split | simp [invalid])
+
+theorem checkControl_no_crash (m : MessageMsg) (site : String) : checkControl Fc m ≠ .crash site := by
+  unfold checkControl; split
+  · exact checkMessageMsg_no_crash _ _
+  · simp
+
+theorem checkCommon_no_crash (c : Common) (site : String) : checkCommon c ≠ .crash site := by
+  unfold checkCommon; repeat (first | split | simp [invalid])
+
+theorem checkAdd_no_crash (a : AddSession) (site : String) : checkAdd Fc a ≠ .crash site := by
+  unfold checkAdd; split
+  · exact checkCommon_no_crash _ _
+  · simp
+
+theorem checkUpd_no_crash (a : UpdateSession) (site : String) : checkUpd Fc a ≠ .crash site := by
+  unfold checkUpd; split
+  · exact checkCommon_no_crash _ _
+  · simp
+
+theorem checkRem_no_crash (a : Common) (site : String) : checkRem Fc a ≠ .crash site := by
+  unfold checkRem; split
+  · exact checkCommon_no_crash _ _
+  · simp
+
+theorem checkDialout_no_crash (d : Dialout) (site : String) : checkDialout Fc d ≠ .crash site := by
+  unfold checkDialout
+  split
+  · simp [invalid]
+  · intro h
+    rcases andThen_crash h with h | h
+    · exact checkField_no_crash _ _ _ _ _ _ (Or.inr (Or.inr rfl)) (by simp) h
+    · exact checkField_no_crash _ _ _ _ _ _ (Or.inr (Or.inr rfl)) (by simp) h
+
+theorem checkInternal_no_crash (i : Internal) (site : String) : checkInternal Fc i ≠ .crash site := by
+  unfold checkInternal
+  split
+  · simp [invalid]
+  · intro h
+    have hr : "InternalClientMessage" = "ClientMessage" ∨ "InternalClientMessage" = "InternalClientMessage" ∨
+        "InternalClientMessage" = "DialoutInternalClientMessage" := Or.inr (Or.inl rfl)
+    rcases andThen_crash h with h | h
+    · exact checkField_no_crash _ _ _ _ _ _ hr (fun a s => checkAdd_no_crash a s) h
+    rcases andThen_crash h with h | h
+    · exact checkField_no_crash _ _ _ _ _ _ hr (fun a s => checkUpd_no_crash a s) h
+    rcases andThen_crash h with h | h
+    · exact checkField_no_crash _ _ _ _ _ _ hr (fun a s => checkRem_no_crash a s) h
+    rcases andThen_crash h with h | h
+    · exact checkField_no_crash _ _ _ _ _ _ hr (by simp) h
+    · exact checkField_no_crash _ _ _ _ _ _ hr (fun a s => checkDialout_no_crash a s) h
+
+theorem checkTransient_no_crash (t : Transient) (site : String) : checkTransient t ≠ .crash site := by
+  unfold checkTransient; repeat (first | split | simp [invalid])
+
+/-- `CheckValid` itself never panics: every sub-object it validates is first compared with nil. -/
+theorem checkValid_no_crash (m : ClientMessage) (site : String) : checkValid Fc m ≠ .crash site := by
+  unfold checkValid
+  split
+  · simp [invalid]
+  · intro h
+    have hr : "ClientMessage" = "ClientMessage" ∨ "ClientMessage" = "InternalClientMessage" ∨
+        "ClientMessage" = "DialoutInternalClientMessage" := Or.inl rfl
+    rcases andThen_crash h with h | h
+    · exact checkField_no_crash _ _ _ _ _ _ hr (fun a s => checkHello_no_crash a s) h
+    rcases andThen_crash h with h | h
+    · exact checkField_no_crash _ _ _ _ _ _ hr (fun a s => checkRoom_no_crash a s) h
+    rcases andThen_crash h with h | h
+    · exact checkField_no_crash _ _ _ _ _ _ hr (fun a s => checkMessageMsg_no_crash a s) h
+    rcases andThen_crash h with h | h
+    · exact checkField_no_crash _ _ _ _ _ _ hr (fun a s => checkControl_no_crash a s) h
+    rcases andThen_crash h with h | h
+    · exact checkField_no_crash _ _ _ _ _ _ hr (fun a s => checkInternal_no_crash a s) h
+    · exact checkField_no_crash _ _ _ _ _ _ hr (fun a s => checkTransient_no_crash a s) h
+
+/-! ### validated ⇒ the sub-object of the type is there (and valid) -/
+
+/-- the chain of `checkValid`, taken apart -/
+theorem checkValid_ok_fields {m : ClientMessage} (h : checkValid Fc m = .ok) :
+    checkField Fc "ClientMessage" m.mtype "Hello" m.hello (checkHello Fc) = .ok ∧
+    checkField Fc "ClientMessage" m.mtype "Room" m.room (checkRoom Fc) = .ok ∧
+    checkField Fc "ClientMessage" m.mtype "Message" m.message checkMessageMsg = .ok ∧
+    checkField Fc "ClientMessage" m.mtype "Control" m.control (checkControl Fc) = .ok ∧
+    checkField Fc "ClientMessage" m.mtype "Internal" m.internal (checkInternal Fc) = .ok ∧
+    checkField Fc "ClientMessage" m.mtype "TransientData" m.transient checkTransient = .ok := by
+  unfold checkValid at h
+  split at h
+  · simp [invalid] at h
+  · simpa [and_assoc] using h
+
+theorem valid_hello {m : ClientMessage} (h : checkValid Fc m = .ok) (ht : m.mtype = "hello") :
+    ∃ x, m.hello = some x ∧ checkHello Fc x = .ok := by
+  have h2 := (checkValid_ok_fields h).1
+  rw [ht] at h2
+  obtain ⟨r, hr⟩ := Option.isSome_iff_exists.mp (checkField_ok_some (by decide) h2)
+  rw [hr] at h2
+  exact ⟨r, hr, checkField_ok_sub (by decide) h2⟩
+
+theorem valid_room {m : ClientMessage} (h : checkValid Fc m = .ok) (ht : m.mtype = "room") :
+    ∃ r, m.room = some r ∧ checkRoom Fc r = .ok := by
+  have h2 := (checkValid_ok_fields h).2.1
+  rw [ht] at h2
+  obtain ⟨r, hr⟩ := Option.isSome_iff_exists.mp (checkField_ok_some (by decide) h2)
+  rw [hr] at h2
+  exact ⟨r, hr, checkField_ok_sub (by decide) h2⟩
+
+theorem valid_message {m : ClientMessage} (h : checkValid Fc m = .ok) (ht : m.mtype = "message") :
+    ∃ r, m.message = some r ∧ checkMessageMsg r = .ok := by
+  have h2 := (checkValid_ok_fields h).2.2.1
+  rw [ht] at h2
+  obtain ⟨r, hr⟩ := Option.isSome_iff_exists.mp (checkField_ok_some (by decide) h2)
+  rw [hr] at h2
+  exact ⟨r, hr, checkField_ok_sub (by decide) h2⟩
+
+theorem valid_control {m : ClientMessage} (h : checkValid Fc m = .ok) (ht : m.mtype = "control") :
+    ∃ r, m.control = some r ∧ checkControl Fc r = .ok := by
+  have h2 := (checkValid_ok_fields h).2.2.2.1
+  rw [ht] at h2
+  obtain ⟨r, hr⟩ := Option.isSome_iff_exists.mp (checkField_ok_some (by decide) h2)
+  rw [hr] at h2
+  exact ⟨r, hr, checkField_ok_sub (by decide) h2⟩
+
+theorem valid_internal {m : ClientMessage} (h : checkValid Fc m = .ok) (ht : m.mtype = "internal") :
+    ∃ r, m.internal = some r ∧ checkInternal Fc r = .ok := by
+  have h2 := (checkValid_ok_fields h).2.2.2.2.1
+  rw [ht] at h2
+  obtain ⟨r, hr⟩ := Option.isSome_iff_exists.mp (checkField_ok_some (by decide) h2)
+  rw [hr] at h2
+  exact ⟨r, hr, checkField_ok_sub (by decide) h2⟩
+
+theorem valid_transient {m : ClientMessage} (h : checkValid Fc m = .ok) (ht : m.mtype = "transient") :
+    ∃ r, m.transient = some r ∧ checkTransient r = .ok := by
+  have h2 := (checkValid_ok_fields h).2.2.2.2.2
+  rw [ht] at h2
+  obtain ⟨r, hr⟩ := Option.isSome_iff_exists.mp (checkField_ok_some (by decide) h2)
+  rw [hr] at h2
+  exact ⟨r, hr, checkField_ok_sub (by decide) h2⟩
+
+theorem checkInternal_ok_fields {i : Internal} (h : checkInternal Fc i = .ok) :
+    checkField Fc "InternalClientMessage" i.itype "AddSession" i.add (checkAdd Fc) = .ok ∧
+    checkField Fc "InternalClientMessage" i.itype "UpdateSession" i.upd (checkUpd Fc) = .ok ∧
+    checkField Fc "InternalClientMessage" i.itype "RemoveSession" i.rem (checkRem Fc) = .ok ∧
+    checkField Fc "InternalClientMessage" i.itype "InCall" i.incall (fun _ => .ok) = .ok ∧
+    checkField Fc "InternalClientMessage" i.itype "Dialout" i.dialout (checkDialout Fc) = .ok := by
+  unfold checkInternal at h
+  split at h
+  · simp [invalid] at h
+  · simpa [and_assoc] using h
+
+theorem internal_add {i : Internal} (h : checkInternal Fc i = .ok) (ht : i.itype = "addsession") : i.add.isSome = true := by
+  have h2 := (checkInternal_ok_fields h).1
+  rw [ht] at h2
+  exact checkField_ok_some (by decide) h2
+
+theorem internal_upd {i : Internal} (h : checkInternal Fc i = .ok) (ht : i.itype = "updatesession") : i.upd.isSome = true := by
+  have h2 := (checkInternal_ok_fields h).2.1
+  rw [ht] at h2
+  exact checkField_ok_some (by decide) h2
+
+theorem internal_rem {i : Internal} (h : checkInternal Fc i = .ok) (ht : i.itype = "removesession") : i.rem.isSome = true := by
+  have h2 := (checkInternal_ok_fields h).2.2.1
+  rw [ht] at h2
+  exact checkField_ok_some (by decide) h2
+
+theorem internal_incall {i : Internal} (h : checkInternal Fc i = .ok) (ht : i.itype = "incall") : i.incall.isSome = true := by
+  have h2 := (checkInternal_ok_fields h).2.2.2.1
+  rw [ht] at h2
+  exact checkField_ok_some (by decide) h2
+
+theorem internal_dialout {i : Internal} (h : checkInternal Fc i = .ok) (ht : i.itype = "dialout") :
+    ∃ d, i.dialout = some d ∧ checkDialout Fc d = .ok := by
+  have h2 := (checkInternal_ok_fields h).2.2.2.2
+  rw [ht] at h2
+  obtain ⟨r, hr⟩ := Option.isSome_iff_exists.mp (checkField_ok_some (by decide) h2)
+  rw [hr] at h2
+  exact ⟨r, hr, checkField_ok_sub (by decide) h2⟩
+
+theorem dialout_status {d : Dialout} (h : checkDialout Fc d = .ok) (ht : d.dtype = "status") : d.status.isSome = true := by
+  unfold checkDialout at h
+  split at h
+  · simp [invalid] at h
+  · simp only [andThen_eq_ok] at h
+    have h2 := h.2
+    rw [ht] at h2
+    exact checkField_ok_some (by decide) h2
+
+theorem dialout_error {d : Dialout} (h : checkDialout Fc d = .ok) (ht : d.dtype = "error") : d.error.isSome = true := by
+  unfold checkDialout at h
+  split at h
+  · simp [invalid] at h
+  · simp only [andThen_eq_ok] at h
+    have h2 := h.1
+    rw [ht] at h2
+    exact checkField_ok_some (by decide) h2
+
+/-- What a validated hello without resume id guarantees about its `auth`. -/
+theorem hello_auth {h : Hello} (hv : checkHello Fc h = .ok) (hr : h.resume = .empty) :
+    ∃ a, h.auth = some a ∧
+      ((effType a = "client" ∨ effType a = "federation") → (a.url = .known ∨ a.url = .unknown)) := by
+  unfold checkHello at hv
+  split at hv
+  · simp at hv
+  · rw [hr] at hv
+    simp only [] at hv
+    cases ha : h.auth with
+    | none =>
+      rw [ha] at hv
+      simp only [] at hv
+      split at hv <;> simp [invalid] at hv
+    | some a =>
+      rw [ha] at hv
+      simp only [] at hv
+      refine ⟨a, rfl, ?_⟩
+      intro ht
+      cases hp : a.paramsNonEmpty with
+      | false => simp [hp, invalid] at hv
+      | true =>
+        simp only [hp, Bool.not_true, Bool.false_eq_true, if_false, if_pos ht] at hv
+        cases hu : a.url <;> simp [hu, invalid] at hv <;> simp
+
+theorem room_federation {r : RoomMsg} {f : Federation} (h : checkRoom Fc r = .ok) (hf : r.federation = some f) : f.sig = .ok := by
+  unfold checkRoom at h
+  rw [hf] at h
+  simp only [] at h
+  have ht : tbl Fc "RoomClientMessage" "*" "Federation" "optsub" = true := by decide
+  rw [if_pos ht] at h
+  unfold checkFederation at h
+  split at h
+  · simp [invalid] at h
+  · rename_i hs; simpa using hs
 
 end SigModel.ShapesClient
